@@ -34,6 +34,8 @@ pub fn op(seek_weight: u32) -> BoxedStrategy<Op> {
         seek_weight / 3 + 1 => any::<u16>().prop_map(Op::SeekSeen),
         1 => Just(Op::IntoRecords),
         1 => (0u8..3).prop_map(Op::ShrinkSet),
+        1 => (0u8..3, 0u8..3).prop_map(|(a, b)| Op::CloneSet(a, b)),
+        1 => gen::policy_permissive().prop_map(Op::SetPolicy),
     ]
     .boxed()
 }
